@@ -911,11 +911,16 @@ fn run_c19_virtual(input: RunInput) -> ScenFuture {
         let block = w.flag("block_mode", 0.5);
         let n_peers = w.param("peers", 1, 4) as usize;
         let n_req = w.param("requests", 5, if w.tier == Tier::Quick { 120 } else { 300 }) as u64;
-        let period_ms = [2u64, 5, 10, 25, 100, 250, 1000, 2000][w.param("period_class", 0, 7) as usize];
+        // (one cell per 2 ms - 2 s; in part of the runs per 200 or 500 us: more than a thousand
+        // requests per second, where a wait is a fraction of a millisecond)
+        // (ReturnError only: timers fire on millisecond boundaries, so the instants at which
+        // *waiting* requests are let through are not comparable at this scale)
+        let period_us = if !block && w.flag("sub_millisecond_period", 0.25) { [200u64, 500][w.param("sub_ms_period_class", 0, 1) as usize] } else { 1000 * [2u64, 5, 10, 25, 100, 250, 1000, 2000][w.param("period_class", 0, 7) as usize] };
+        let period_ms = (period_us / 1000).max(1);
         let span_periods = w.param("span_periods", 1, 40) as u64;
         let cancel = block && w.flag("cancel_waiters", 0.3);
-        let period = Duration::from_millis(period_ms);
-        let t_ns = period_ms * 1_000_000;
+        let period = Duration::from_micros(period_us);
+        let t_ns = period_us * 1_000;
         // start at an odd instant so that nothing depends on the limiter being created at time 0
         sleep_ms(w.param("start_offset_ms", 0, 50) as u64).await;
         let quota = governor::Quota::with_period(period).unwrap().allow_burst(std::num::NonZeroU32::new(burst as u32).unwrap());
